@@ -97,7 +97,12 @@ static void check_decimal(const char * lit, size_t ll, uint64_t dbits, uint32_t 
         snprintf(got, sizeof got, "%.9g (0x%08x)", (double) r_f, gf); snprintf(want, sizeof want, "%.9g (0x%08x)", (double) w, fbits);
         /* its own class: exactly the value obtained by rounding the literal to double first and to float afterwards (what a build
          * without strtof does) - a known finding of the strict C90 configuration, nothing else is filed under it */
+#ifdef MC_CFG_C90
+        /* only in the strict C90 build, where the library has no strtof: everywhere else this is an ordinary violation */
         if (gf == vb) { mc_viol("c04/float/double-rounding-via-strtod", "literal [%s] read with SCPI_ParamFloat: %s, the nearest float is %s; the result equals (float) of the nearest double (rounded twice)", mc_e(lit, ll), got, want); return; }
+#else
+        (void) vb;
+#endif
         bad(cls, "SCPI_ParamFloat", lit, ll, got, want); return;
     }
     if (!send(lit, ll, RD_NUMBER)) { bad(cls, "SCPI_ParamNumber", lit, ll, "not accepted", "a value"); return; }
